@@ -1,5 +1,5 @@
 From Coq Require Import ExtrOcamlBasic ExtrOcamlString.
-From WB Require Import Async.Host Async.WaitOp.
+From WB Require Import Async.Host Async.WaitOp Async.WaitOpProofs.
 Extraction Language OCaml.
 Extraction "../build/extracted/waitop_model.ml" model_run valid_trace w_tasks w_wakes w_err w_bad w_handed w_updates w_ops
-  t_map t_clones mkWcfg.
+  t_map t_clones mkWcfg inv_ok prun explore_cfg2.
